@@ -88,7 +88,8 @@ func main() {
 		var cand []int
 
 		for i, c := range cases {
-			if c.Fam == "mech" && c10.ServiceMechs[c.Mech] {
+			// (a negative duration cannot be written into a configuration file: the schema refuses it)
+			if c.Fam == "mech" && c10.ServiceMechs[c.Mech] && c.Cfg != "neg" && c.Ovr != "neg" {
 				cand = append(cand, i)
 			}
 		}
